@@ -341,9 +341,50 @@ let run_mixed (type a b) (f1 : a fld) (f2 : b fld) (mul12 : a -> b -> xfe) (op :
       check_str (show_se (Array.of_list (xf.to_vals m))) (show_se spec)
   | _ -> "UNKNOWN-OP"
 
+(* sparse <field> <which> | a c1 d1 | b c2 d2 : specification only (the model is not run): the product / power of
+   two-term polynomials has a closed form, so degrees around 2^20 cost nothing here and keep the tie to the code alive
+   above the sizes the model can execute *)
+let sparse_spec (field : string) (g : string list list) : string =
+  let pm = ZZ.of_string "18446744069414584321" in
+  let md x = ZZ.erem x pm in
+  match g with
+  | [[which]; [a; c1; d1]; [b; c2; d2]] ->
+      let a = int_of_string a and b = int_of_string b in
+      let c1 = md (ZZ.of_string c1) and d1 = md (ZZ.of_string d1) and c2 = md (ZZ.of_string c2) and d2 = md (ZZ.of_string d2) in
+      let tbl = Hashtbl.create 16 in
+      let addt i v = let cur = try Hashtbl.find tbl i with Not_found -> ZZ.zero in Hashtbl.replace tbl i (md (ZZ.add cur v)) in
+      let terms1 = [(0, d1); (a, c1)] and terms2 = [(0, d2); (b, c2)] in
+      (match which with
+       | "multiply" | "fast" | "mul" ->
+           List.iter (fun (i, x) -> List.iter (fun (j, y) -> addt (i + j) (ZZ.mul x y)) terms2) terms1
+       | "square" | "fastsq" ->
+           List.iter (fun (i, x) -> List.iter (fun (j, y) -> addt (i + j) (ZZ.mul x y)) terms1) terms1
+       | "fastpow" ->
+           (* (c1 X^a + d1)^e with e = b; for a = 0 the base is the constant c1 + d1 *)
+           let e = b in
+           if a = 0 then addt 0 (ZZ.powm (md (ZZ.add c1 d1)) (ZZ.of_int e) pm)
+           else begin
+             let binom = ref ZZ.one in
+             for k = 0 to e do
+               addt (k * a) (ZZ.mul !binom (ZZ.mul (ZZ.powm c1 (ZZ.of_int k) pm) (ZZ.powm d1 (ZZ.of_int (e - k)) pm)));
+               binom := ZZ.div (ZZ.mul !binom (ZZ.of_int (e - k))) (ZZ.of_int (k + 1))
+             done
+           end
+       | _ -> ());
+      let nz = List.sort compare (Hashtbl.fold (fun i v acc -> if ZZ.equal v ZZ.zero then acc else (i, v) :: acc) tbl []) in
+      let len = match List.rev nz with [] -> 0 | (i, _) :: _ -> i + 1 in
+      let show v = if field = "b" then ZZ.to_string v else ZZ.to_string v ^ ",0,0" in
+      let rec pr k = function
+        | [] -> []
+        | _ when k >= 8 -> ["MANY"]
+        | (i, v) :: t -> (string_of_int i ^ ":" ^ show v) :: pr (k + 1) t in
+      String.concat " " (string_of_int len :: pr 0 nz)
+  | _ -> "BAD-CASE"
+
 let run (op : string) (a : string list) : string =
   match op, a with
   | "cmp", _ -> "SAME"
+  | "sparse", field :: rest -> sparse_spec field (split_groups rest)
   | _, [] -> "BAD-CASE"
   | _, field :: rest ->
       let g = split_groups rest in
